@@ -167,6 +167,7 @@ func c12Scenarios(tier string) []*Scenario {
 		}
 	}
 	out = append(out, c12DialScenarios()...)
+	out = append(out, c12OpaqueLocal())
 	return out
 }
 
@@ -782,4 +783,70 @@ func c12ConcurrentDials(bound int) *Scenario {
 	}
 	return &Scenario{Name: "handshake/concurrent-dials-one-client", Body: body, Check: check, Bound: bound, Horizon: 4 * c12Interval,
 		Outcome: func(s *vs.Sched) string { return fmt.Sprint(c12conc.ok, c12conc.c[0].Closed, c12conc.c[1].Closed) }}
+}
+
+// c12OpaqueLocal: the transport's local address is not of the ip:port form (a pipe, a unix socket,
+// a tunnel adapter). With configured host addresses that does not matter: the CER carries the
+// configured addresses and the handshake completes. Without configured addresses the dial fails
+// and the transport is closed.
+func c12OpaqueLocal() *Scenario {
+	return &Scenario{Name: "handshake/opaque-local-address", Seq: func(r *SeqResult) {
+		for _, local := range []string{"pipe", "/run/diameter.sock", "", "10.1.2.3:3868"} {
+			for _, configured := range []bool{true, false} {
+				local, configured := local, configured
+				var verdict string
+				s := vs.Run(nil, false, 10*c12Interval, false, func() {
+					settings := &sm.Settings{OriginHost: "cli", OriginRealm: "test", VendorID: 13, ProductName: "prod", FirmwareRevision: 7}
+					if configured {
+						settings.HostIPAddresses = []datatype.Address{datatype.Address(net.ParseIP("10.0.0.2"))}
+					}
+					mach := sm.New(settings)
+					cli := &sm.Client{Handler: mach, Dict: dict.Default, MaxRetransmits: 0, RetransmitInterval: c12Interval,
+						AuthApplicationID: []*diam.AVP{diam.NewAVP(avp.AuthApplicationID, avp.Mbit, 0, datatype.Unsigned32(4))}}
+					conn := vnet.NewConn("O")
+					conn.Pieces = 1
+					conn.Local = vnet.Addr{S: local}
+					var cer *PMsg
+					vs.GoNamed("peer", true, func() {
+						p := &Peer{C: conn}
+						if m := p.Next(); m != nil && m.Hdr.Code == 257 {
+							cer = m
+							conn.Deliver(peerAnswer(m, 2001, true))
+						}
+					})
+					c, err := cli.NewConn(conn, "peer")
+					ok := c != nil && err == nil
+					parsable := local == "10.1.2.3:3868"
+					switch {
+					case configured && !ok:
+						verdict = fmt.Sprintf("host addresses are configured, the peer answers with a success CEA, but the dial over a transport whose local address is %q failed: %v", local, err)
+					case configured && (cer == nil || len(cer.FindAll(257)) != 1 || !bytes.Equal(cer.FindAll(257)[0].Payload, refcodec.Address(1, []byte{10, 0, 0, 2}))):
+						verdict = "the CER does not carry exactly the configured host address"
+					case configured && conn.Closed:
+						verdict = "the connection was closed after a successful handshake"
+					case !configured && parsable && !ok:
+						verdict = fmt.Sprintf("dial failed: %v", err)
+					case !configured && !parsable && local != "" && ok && cer != nil && len(cer.FindAll(257)) == 0:
+						// no address to advertise: the library may fail the dial, or succeed if it found one - but
+						// never send a CER without any Host-IP-Address and call that a success
+						verdict = fmt.Sprintf("no host address is configured and the local address %q yields none, yet a CER without Host-IP-Address was sent and the dial succeeded", local)
+					case !ok && !conn.Closed:
+						verdict = "the dial failed but the transport was not closed"
+					}
+				})
+				panics := s.Panics()
+				s.Teardown()
+				r.Cases++
+				r.Distinct++
+				if len(panics) > 0 && verdict == "" {
+					verdict = "panic: " + panics[0]
+				}
+				if verdict != "" && r.Violation == "" {
+					r.Violation = verdict
+					r.Case = map[string]interface{}{"local": local, "configured": configured}
+				}
+			}
+		}
+		r.Sample = "local address in {pipe, /run/diameter.sock, empty, 10.1.2.3:3868} x host addresses {configured, not configured}"
+	}}
 }
